@@ -75,6 +75,7 @@ pub trait Matcher {
 
 /// line [s,e) of buffer b "matches" under line terminator lt: the predicate p ("the pattern
 /// matches somewhere in") holds of the line's content with its terminator removed
+#[verifier::opaque]
 pub open spec fn lm(p: spec_fn(Seq<u8>) -> bool, b: Seq<u8>, lt: LineTerminator, s: int, e: int) -> bool {
     p(strip(b.subrange(s, e), lt))
 }
